@@ -328,6 +328,16 @@ def phases(tier):
     ph = [Phase('exact-depth1', make_exact(d1, 2), setup=_setup, chunk=300, describe='all sequences of <=2 depth-1 statements'),
           Phase('exact-depth2', make_exact(d2, 1), setup=_setup, chunk=300, describe='every depth-2 single statement')]
     d1b = _stmts(1, 2)
+    # reduced sets for sequences of three statements
+    core3 = [('asg', 'x'), ('asg', 'y'), ('rd', 'x')]
+    red = list(BASE) + [('if1', (b,)) for b in BASE] + [('if', (t,), (e,)) for t in core3 for e in core3]
+    nm_core = ["x = 1", "print(x)"]
+    nm_red = list(NM_BASE) + [(k, [b]) for k in ('if', 'while', 'for', 'def') for b in nm_core] + \
+        [('ifelse', [t], [e]) for t in ("x = 1", "y = 1", "print(x)") for e in ("x = 1", "y = 1", "print(x)")]
+    ph.append(Phase('exact-x3-reduced', make_exact(red, 3), setup=_setup, chunk=300,
+                    describe='all sequences of <=3 statements over a reduced depth-1 set (%d)' % len(red)))
+    ph.append(Phase('no-miss-x3-reduced', make_nomiss(nm_red, 3), setup=_setup, chunk=100,
+                    describe='all sequences of <=3 statements over a reduced loop/branch/function set (%d)' % len(nm_red)))
     if tier == 'quick':
         # two-statement blocks: every single statement whose blocks have up to two statements, sampled exhaustively
         # over the sub-family whose then-block has two statements and whose else-block has one
